@@ -600,3 +600,28 @@ func sharedLinkHooks(rep *Report, prop string) {
 		}
 	}
 }
+
+// twoClosurePositions (C09, "position by position"): a handler with TWO function-typed parameters followed by
+// nothing, and one with a function parameter that is NOT the last one: each callable runs the function passed at
+// ITS position.
+func twoClosurePositions(rep *Report, prop, api string) {
+	rep.Evaluations++
+	rep.Distinct++
+	d := map[string]any{"suite": "two-closure-positions", "api": api}
+	p, err := NewPair(jsonRaw(), PairOpts{API: api})
+	if err != nil {
+		rep.addViolation("property", prop+":closure-positions:setup", "link setup failed: "+err.Error(), d)
+		return
+	}
+	defer p.Shutdown()
+	ra, _, _ := p.A.AnyRemote()
+	var first, second int64
+	r := withWatchdog(func() (any, error) {
+		return ra.KindClosure(context.Background(), 0,
+			func(ctx context.Context, k int) (int, error) { atomic.AddInt64(&first, 1); return 1000 + k, nil },
+			func(ctx context.Context, k int) error { atomic.AddInt64(&second, 1); return nil })
+	})
+	if !r.ok || r.err != nil || r.val.(string) != "1000|<nil>|<nil>" || first != 1 || second != 1 {
+		rep.addViolation("property", prop+":"+api+":closure-positions", fmt.Sprintf("a handler with two function-typed parameters invoked each once: the first function ran %d time(s), the second %d; the handler saw %+v (want \"1000|<nil>|<nil>\", once each) — an argument did not arrive at its position", first, second, r), d)
+	}
+}
